@@ -7,6 +7,7 @@ A shadowing `if _, err := …; err != nil { return ctx, err }` (seeded/C01-provi
 breaks exactly this fact, statically.
 -/
 import CaddyModel.Gen.ProvisionErr
+import CaddyModel.Gen.StdAppsOrder
 
 namespace CaddyModel.C01
 
@@ -16,5 +17,23 @@ theorem provision_rollback_sees_every_error :
     Gen.provisionRollbackReadsFunctionErr = true ∧
     Gen.provisionErrorReturns.all (· == "covered") = true ∧
     Gen.provisionErrorReturns.length ≥ 3 := by decide
+
+/-- the ORDER facts StdApps.lean is built on, regenerated from caddy.go and modules/caddytls/tls.go on every run:
+    `load` — "started" is emitted after the start loop and BEFORE finishSettingUp, whose failure ends in
+    unsyncedStop of the new configuration; `endOuts` — "stopping", then the apps' Stop, then the modules' Cleanup;
+    `stop` — caddy.Stop cleans up BEFORE it empties currentCtx and TLS.Cleanup takes whatever tls app
+    caddy.ActiveContext() has for its successor, with no check that it is not itself (the known finding; a
+    repair of either side changes one of these strings, and `Std.stop` has to become `Std.stopW`);
+    `validate` — run, cancel, defaults back; `cacheAdd` / `tlsCleanup` — every certificate that is cached is
+    remembered in t.loaded unconditionally (self-test C01-tls-untagged-certificates-not-tracked breaks this line) -/
+theorem std_apps_order_matches_source :
+    Gen.runPhaseOrder = ["provisionContext", "provisionAdminRouters", "Start", "emitEvent:started", "finishSettingUp", "unsyncedStop"] ∧
+    Gen.unsyncedStopOrder = ["emitEvent:stopping", "Stop", "cancelFunc"] ∧
+    Gen.stopOrder = ["unsyncedStop", "currentCtx=Context{}"] ∧
+    Gen.validateOrder = ["run", "cancelFunc", "restoreDefaultStorage", "restoreDefaultLogger"] ∧
+    Gen.tlsCleanupSuccessorLookup = "caddy.ActiveContext().AppIfConfigured(\"tls\")" ∧
+    Gen.tlsCleanupSuccessorCond = "err==nil&&nextTLS!=nil" ∧
+    Gen.tlsProvisionCacheBlock = ["assign:err<-magic.CacheUnmanagedTLSCertificate", "if:err!=nil", "assign:t.loaded[hash]<-\"\""] := by
+  decide
 
 end CaddyModel.C01
